@@ -4,7 +4,7 @@
 //! each listed j the number of second words with y >= j (a prefix: y decreases in v).  TraceRejection.tla compares with the table.
 use crate::rng::ScriptRng;
 use crate::util::*;
-use rand_distr::{Binomial, Distribution, Exp1, Gamma, Hypergeometric, Poisson, StandardNormal};
+use rand_distr::{Beta, Binomial, Distribution, Exp1, Gamma, Hypergeometric, Poisson, StandardNormal};
 use serde_json::{json, Value};
 use std::io::{BufRead, Write};
 
@@ -47,6 +47,30 @@ pub fn drive(args: &[String]) -> i32 {
             match res {
                 Ok(evs) => for mut e in evs { e["res"] = json!("Ok"); out.push(e.to_string()); },
                 Err(p) => out.push(json!({"op": "h2pe1", "case": id, "k": 0, "res": format!("Panic: {}", p), "out": -1, "accepted_at_zero": false, "T": [0]}).to_string()),
+            }
+            continue;
+        }
+        if c.get("kernel").and_then(|k| k.as_str()) == Some("cheng") {
+            // Cheng BB / BC (Beta<f64>): first uniform word j 2^60 (u1 = j/16 + 2^-53), accepting second words are a prefix
+            let a: f64 = c["a"].as_str().unwrap().parse().unwrap(); let b: f64 = c["b"].as_str().unwrap().parse().unwrap();
+            let js: Vec<u64> = c["js"].as_array().unwrap().iter().map(|x| x.as_u64().unwrap()).collect();
+            let res = guarded(|| -> Vec<Value> {
+                let d = Beta::<f64>::new(a, b).expect("constructor");
+                let mut r = ScriptRng::new(vec![0, 0], 0);
+                let mut call = |w1: u64, w2: u64| -> (f64, u64) { r.prefix[0] = w1; r.prefix[1] = w2; r.pos = 0; r.state = 29 ^ w2; r.n32 = 0; r.n64 = 0; r.nbytes = 0; let o = d.sample(&mut r); (o, r.words()) };
+                let mut evs = vec![];
+                for (i, &j) in js.iter().enumerate() {
+                    let w1 = j << 60;
+                    let (o0, n0) = call(w1, 0);
+                    let t = first_true(0, ALL, |w| call(w1, w as u64).1 != 2);
+                    evs.push(json!({"op": "cheng", "case": id, "i": i + 1, "accepted_at_zero": n0 == 2, "xq": l14((o0 * 1152921504606846976.0).floor().max(0.0) as u128), "T": l14(t),
+                                    "show": [format!("{:e}", o0), format!("{:.12}", t as f64 / 18446744073709551616.0)]}));
+                }
+                evs
+            });
+            match res {
+                Ok(evs) => for mut e in evs { e["res"] = json!("Ok"); out.push(e.to_string()); },
+                Err(p) => out.push(json!({"op": "cheng", "case": id, "i": 0, "accepted_at_zero": false, "xq": [0], "T": [0], "res": format!("Panic: {}", p)}).to_string()),
             }
             continue;
         }
